@@ -42,7 +42,7 @@ def plan(tier):
         "assumptions": ["32-bit spaces are covered per decode leaf by pattern members (as C18)",
                         "other modes' banked registers and SPSRs carry distinct tags; system registers keep their "
                         "configured values and must not change"],
-        "deadline_s": 170 if tier == "quick" else 1700,
+        "deadline_s": 400 if tier == "quick" else 1700,
     }
 
 
